@@ -9,12 +9,12 @@ def _c05_blp_register():
     H("C05", "blp", "verif_kani_bounds", "quick", "C05.blp.1 BLP bounds helpers are total for hostile (offset, size) pairs and accept only ranges inside the input",
       ["c05_blp_check_bounds_total", "c05_blp_bounded_slice_total"], ["parser::bounds::check_bounds", "parser::bounds::get_bounded_slice"],
       "offset, size: u32 symbolic; input of <= 8 symbolic bytes (symbolic length)", "8-byte input", stubs=["::std::fmt::format -> String::new()"])
-    H("C05", "blp", "verif_kani_direct", "quick", "C05.blp.2 parse_dxtn on a hostile BLP2 header: value or error for every width / height / mipmap flag / locator offset - "
+    H("C05", "blp", "verif_kani_direct", "thorough", "C05.blp.2 parse_dxtn on a hostile BLP2 header: value or error for every width / height / mipmap flag / locator offset - "
       "no index beyond the 16-entry mipmap locator, no overflow in the block-count arithmetic, at most 16 levels",
       ["c05_blp_parse_dxt1_hostile_header", "c05_blp_parse_dxt5_hostile_header"], ["parser::direct::blp2::parse_dxtn", "BlpHeader::mipmaps_count", "BlpHeader::mipmap_size"],
       "width, height: u32 symbolic below 2^31 (not limited to the encoder's 65535), has_mipmaps u8 symbolic, one symbolic offset shared by the 16 locator entries, declared sizes 0, 16 symbolic file bytes",
       "16-byte file; level payloads empty (declared size 0)", stubs=["::std::fmt::format -> String::new()", "f32::log2 -> integer model floor(log2 x) (libm is imprecise in CBMC; equality after `as usize` checked natively for 0..=70000)"],
-      timeout=900)
+      timeout=2400)
     H("C05", "blp", "verif_kani_bounds", "quick", "canary", ["c05_blp_bounds_canary"], ["parser::bounds::check_bounds"], "vacuity twin", "-", expect="canary")
     return True
 _C05_BLP_PENDING = not _c05_blp_register()
